@@ -39,6 +39,9 @@ func lossyRun(w *World, stalled bool) {
 		// a Value with an equivalence under which writes that differ only in V are equivalent: the most recent value a
 		// lossy subscriber ends on must then agree with the store up to that equivalence
 		cfg.EquivNoV, g.pool = true, true
+		// ... sometimes with a tolerance on N on top (small steps that add up: the subscriber's most recent value may be
+		// within the tolerance of the store's, not further)
+		cfg.EquivTolN = t.Flag(1, 2)
 	}
 	r := newRealRes(cfg, &simClock{}, &simRNG{})
 	m0 := newModel(cfg)
@@ -226,6 +229,9 @@ func lossyCheck(w *World, r *realRes, m0 *model, coll bool, s *subscriber) {
 		a, b := last.New, cur.Msg
 		if r.cfg.EquivNoV {
 			a.V, b.V = 0, 0
+		}
+		if d := a.N - b.N; r.cfg.EquivTolN && d >= -1 && d <= 1 {
+			a.N, b.N = 0, 0 // (within the tolerance of what the subscriber was told last)
 		}
 		if !cur.HasMsg || a != b {
 			w.Violate("not-latest", fmt.Sprintf("%s [%s] last received %s, the value is %s; events: %s", s.name, s.cfg, last.New, cur, eventsString(s.events)), map[string]any{"resource": "value", "mode": mode})
